@@ -125,10 +125,8 @@ class ListProxy(list, ContainerValueMixin):
         for index, value in enumerate(self):
             if value is item:
                 return str(index)
-        try:
-            return str(self.index(item))
-        except:  # noqa: E722
-            return str(len(self))
+        # not in the list (yet): the position it is about to be appended at
+        return str(len(self))
 
 
 class ListField(Field):
